@@ -573,9 +573,11 @@ def mk_app(f, args=(), kw=()):
                 x, y = sorted(a.items, key=lambda t: t._key)
                 return TupleV([App("min2", (x, y)), App("max2", (x, y))], "list")
         return App(f, args)
-    if f in ("min", "max") and n == 2 and not kw:
+    if f in ("min", "max", "min2", "max2") and n == 2 and not kw:
         x, y = sorted(args, key=lambda t: t._key)
-        return App(f + "2", (x, y))
+        if x == y:
+            return x
+        return App(f[:3] + "2", (x, y))                 # min/max are symmetric: arguments sorted
     if f == "len" and n == 1:
         a = args[0]
         if isinstance(a, Const):
@@ -610,6 +612,20 @@ def mk_app(f, args=(), kw=()):
             pass
     if f == "int" and n == 1 and ty_of(args[0]) == "int":
         return args[0]
+    if f == "int" and n == 1 and is_app(args[0], "str") and len(args[0].args) == 1 and ty_of(args[0].args[0]) == "int":
+        return args[0].args[0]                          # int(str(i)) == i
+    _INV = {"base64.b64decode": "base64.b64encode", "base64.b32decode": "base64.b32encode",
+            "base64.b16decode": "base64.b16encode", "base64.urlsafe_b64decode": "base64.urlsafe_b64encode",
+            "base64.standard_b64decode": "base64.standard_b64encode", "base64.b85decode": "base64.b85encode",
+            "base64.a85decode": "base64.a85encode", "zlib.decompress": "zlib.compress"}
+    if f in _INV and n == 1 and not kw:
+        a = args[0]
+        if is_app(a, ".encode", ".decode") and is_app(a.args[0], ".decode", ".encode"):
+            a = a.args[0].args[0] if a.args[0].f != a.f else a
+        elif is_app(a, ".encode") and is_app(a.args[0], ".decode"):
+            a = a.args[0].args[0]
+        if is_app(a, _INV[f]) and len(a.args) == 1 and not a.kw:
+            return a.args[0]                            # decode(encode(x)) == x for the stdlib codec pairs
     if f == "pow" and n == 3 and all(isinstance(a, Const) and isinstance(a.v, int) for a in args):
         try:
             return Const(pow(args[0].v, args[1].v, args[2].v))   # constants of the program only
